@@ -9,6 +9,7 @@
 From Coq Require Import List Arith NArith Bool Lia Permutation.
 Import ListNotations.
 Require Import S1 VParse Py VMeaning SpecModel SpecParse SpecContains SetModel SetsModel SetsBridge SetsFs SetsLaws SetsLink SetsFilter SpecOps VKeyEq.
+Require Import SetsFilterMore SetsWorld SetsWorldLaws.
 Open Scope N_scope.
 
 (* 1. the gate: a pre-release candidate is matched only if pre-releases are enabled - by the argument, else by the override,
@@ -141,6 +142,157 @@ Theorem C06_chain_order_irrelevant S S' arg xs : Permutation (ms S) (ms S') -> o
   set_filter_v S arg xs = set_filter_v S' arg xs.
 Proof. exact (set_filter_order_irrelevant S S' arg xs). Qed.
 Print Assumptions C06_chain_order_irrelevant.
+
+(* ================================================================ second round (audit of C06) *)
+
+(* 3'. contains() depends on (override, argument) only through the effective setting; so enabling pre-releases by ANY means - the call
+       argument, the constructor override, a later assignment - never removes a match *)
+Theorem C06_contains_only_effective sp o arg item : contains sp o arg item = contains sp None (Some (spec_effective sp o arg)) item.
+Proof. exact (contains_only_effective sp o arg item). Qed.
+Print Assumptions C06_contains_only_effective.
+Theorem C06_enable_monotone_general sp o arg o' arg' item : spec_effective sp o' arg' = true ->
+  contains sp o arg item = Ans true -> contains sp o' arg' item = Ans true.
+Proof. exact (enable_monotone_general sp o arg o' arg' item). Qed.
+Print Assumptions C06_enable_monotone_general.
+Theorem C06_set_contains_only_effective S arg inst item :
+  set_contains S arg inst item = set_contains S (Some (set_effective S arg)) inst item.
+Proof. exact (set_contains_only_effective S arg inst item). Qed.
+Print Assumptions C06_set_contains_only_effective.
+(* S' : the same members under any other override of the set *)
+Theorem C06_set_enable_monotone_general S S' arg arg' inst item : ms S = ms S' -> set_effective S' arg' = true ->
+  set_contains S arg inst item = Ans true -> set_contains S' arg' inst item = Ans true.
+Proof. exact (set_enable_monotone_general S S' arg arg' inst item). Qed.
+Print Assumptions C06_set_enable_monotone_general.
+(* filter(): whatever is returned under one setting - by the fall-back too - is returned once pre-releases are enabled *)
+Theorem C06_filter_monotone_specifier sp o arg o' arg' xs ys : wf_member sp -> wf_items xs -> spec_effective sp o' arg' = true ->
+  spec_filter_v sp o arg xs = Some ys ->
+  exists zs, spec_filter_v sp o' arg' xs = Some zs /\ incl ys zs /\ zs = filter (fun x => is_true (contains_v sp None (Some true) (snd x))) xs.
+Proof. exact (spec_filter_monotone sp o arg o' arg' xs ys). Qed.
+Print Assumptions C06_filter_monotone_specifier.
+Theorem C06_filter_monotone_set S S' arg arg' xs ys : ms S = ms S' -> ms S <> [] -> wf_set S -> wf_items xs -> set_effective S' arg' = true ->
+  set_filter_v S arg xs = Some ys -> exists zs, set_filter_v S' arg' xs = Some zs /\ incl ys zs.
+Proof. exact (set_filter_monotone S S' arg arg' xs ys). Qed.
+Print Assumptions C06_filter_monotone_set.
+Theorem C06_filter_monotone_emptyset S S' arg arg' xs : ms S = [] -> ms S' = [] -> set_effective S' arg' = true ->
+  set_filter_v S' arg' xs = Some xs /\ forall ys, set_filter_v S arg xs = Some ys -> incl ys xs.
+Proof. exact (empty_filter_monotone S S' arg arg' xs). Qed.
+Print Assumptions C06_filter_monotone_emptyset.
+
+(* 4'. filter() is idempotent, the fall-back included: filtering its own output under the same setting returns it unchanged *)
+Theorem C06_filter_idempotent_specifier sp o arg xs ys : wf_member sp -> wf_items xs ->
+  spec_filter_v sp o arg xs = Some ys -> spec_filter_v sp o arg ys = Some ys.
+Proof. exact (spec_filter_idempotent sp o arg xs ys). Qed.
+Print Assumptions C06_filter_idempotent_specifier.
+Theorem C06_filter_idempotent_set S arg xs ys : wf_set S -> wf_items xs -> set_filter_v S arg xs = Some ys -> set_filter_v S arg ys = Some ys.
+Proof. exact (set_filter_idempotent S arg xs ys). Qed.
+Print Assumptions C06_filter_idempotent_set.
+
+(* 1'. the layers of the effective setting for sets built from Specifier OBJECTS and for a & b.  A member's own override is a fourth
+       layer, which the property text does not mention: SpecifierSet([Specifier(">=1.0", prereleases=True)]) matches 2.0a1. *)
+Theorem C06_effective_of_object_set l p arg :
+  set_effective (SpecifierSet_of l p) arg =
+  match arg with Some b => b | None => match p with Some b => b | None => existsb member_enables (fs_of l) end end.
+Proof. exact (object_set_effective l p arg). Qed.
+Print Assumptions C06_effective_of_object_set.
+Theorem C06_effective_of_object_set_all l p arg : pre_coherent l ->
+  set_effective (SpecifierSet_of l p) arg =
+  match arg with Some b => b | None => match p with Some b => b | None => existsb member_enables l end end.
+Proof. exact (object_set_effective_all l p arg). Qed.
+Print Assumptions C06_effective_of_object_set_all.
+Theorem C06_gate_object_set l p arg inst item c : Version item = Some c -> is_prerelease c = true ->
+  set_contains (SpecifierSet_of l p) arg inst item = Ans true ->
+  arg = Some true \/ (arg = None /\ p = Some true) \/
+  (arg = None /\ p = None /\ exists m, In m l /\ (m_ov m = Some true \/ (m_ov m = None /\ auto_pre (m_sp m) = true))).
+Proof. exact (object_set_gate l p arg inst item c). Qed.
+Print Assumptions C06_gate_object_set.
+Theorem C06_effective_of_and A B C arg : set_and A B = Some C -> pre_coherent (ms A ++ ms B) ->
+  set_effective C arg =
+  match arg with
+  | Some b => b
+  | None => match ov A with Some x => x | None => match ov B with Some y => y | None => existsb m_pre (ms A) || existsb m_pre (ms B) end end
+  end.
+Proof. exact (and_effective_all A B C arg). Qed.
+Print Assumptions C06_effective_of_and.
+Theorem C06_effective_of_and_text a b pa pb A B C arg : SpecifierSet a pa = Some A -> SpecifierSet b pb = Some B -> set_and A B = Some C ->
+  set_effective C arg =
+  match arg with
+  | Some x => x
+  | None => match pa with Some x => x | None => match pb with Some y => y | None =>
+              existsb (fun m => auto_pre (m_sp m)) (ms A) || existsb (fun m => auto_pre (m_sp m)) (ms B) end end
+  end.
+Proof. exact (and_effective_text a b pa pb A B C arg). Qed.
+Print Assumptions C06_effective_of_and_text.
+
+(* 5'. the fall-back of a single Specifier on the input list of strings / Version objects, no wf premises *)
+Theorem C06_fallback_specifier_text s sp texts xs : Specifier s = Some sp -> coerce_from 0 texts = Some xs -> auto_pre sp = false ->
+  let accepted := filter (fun x => is_true (contains_v sp None None (snd x))) xs in
+  let pres := filter (fun x => it_pre x && is_true (contains_v sp None (Some true) (snd x))) xs in
+  spec_filter sp None None texts = FOk (map fst (match accepted with [] => pres | _ => accepted end)).
+Proof. exact (spec_filter_fallback_text s sp texts xs). Qed.
+Print Assumptions C06_fallback_specifier_text.
+Theorem C06_fallback_specifier_iff_text s sp texts xs ps : Specifier s = Some sp -> coerce_from 0 texts = Some xs -> auto_pre sp = false ->
+  spec_filter sp None None texts = FOk ps ->
+  exists ys, ps = map fst ys /\ incl ys xs /\
+    forall x, In x ys -> (it_pre x = true <-> filter (fun x => negb (it_pre x) && is_true (contains_v sp None (Some true) (snd x))) xs = []).
+Proof. exact (spec_filter_fallback_iff_text s sp texts xs ps). Qed.
+Print Assumptions C06_fallback_specifier_iff_text.
+(* 7'. the empty set built from a text *)
+Theorem C06_fallback_emptyset_text s p S arg texts xs : SpecifierSet s p = Some S -> ms S = [] -> coerce_from 0 texts = Some xs ->
+  set_filter S arg texts = FOk (map fst (
+    match arg, p with
+    | None, None => match filter (fun x => negb (it_pre x)) xs with [] => xs | finals => finals end
+    | _, _ => filter (fun x => is_true (set_contains_v S arg None (snd x))) xs
+    end)).
+Proof. exact (empty_set_filter_text s p S arg texts xs). Qed.
+Print Assumptions C06_fallback_emptyset_text.
+
+(* 9'. histories over objects WITH IDENTITY (SetsWorld; the s.world command runs wstep): Specifier objects live in a heap, sets hold
+       references, a & b holds the operands' member objects.  After any history of constructions, &, assignments to a set, assignments to
+       a member object (through any alias) and reads: every pre-existing object is unchanged except that its override is its latest
+       assignment (frame: assigning one object never touches another; membership and _spec never change; reads write nothing) ... *)
+Theorem C06_world_history ops w : frame w (wrun w ops) ops.
+Proof. exact (world_history ops w). Qed.
+Print Assumptions C06_world_history.
+Theorem C06_world_reads_do_not_write w i a o : fst (wstep w (WRead i o)) = w /\ fst (wstep w (WReadCell a o)) = w.
+Proof. exact (reads_do_not_write w i a o). Qed.
+Print Assumptions C06_world_reads_do_not_write.
+(* ... so what a set answers is what SetsModel answers for its members under their latest overrides and its own latest override ... *)
+Theorem C06_world_resolve ops w i : wf_world w -> (i < length (sets w))%nat ->
+  resolve (wrun w ops) i =
+  {| ms := map (fun a => {| m_sp := c_sp (cell_at w a); m_ov := latest_cell a ops (c_ov (cell_at w a)) |}) (h_ms (set_at w i));
+     ov := latest_set i ops (h_ov (set_at w i)) |}.
+Proof. exact (resolve_after ops w i). Qed.
+Print Assumptions C06_world_resolve.
+(* ... and two histories with the same latest assignments (to the set and to each of its member objects) give the same outputs *)
+Theorem C06_world_history_outputs w ops ops' i o : wf_world w -> (i < length (sets w))%nat ->
+  latest_set i ops (h_ov (set_at w i)) = latest_set i ops' (h_ov (set_at w i)) ->
+  (forall a, In a (h_ms (set_at w i)) -> latest_cell a ops (c_ov (cell_at w a)) = latest_cell a ops' (c_ov (cell_at w a))) ->
+  snd (wstep (wrun w ops) (WRead i o)) = snd (wstep (wrun w ops') (WRead i o)).
+Proof. exact (reads_depend_on_latest w ops ops' i o). Qed.
+Print Assumptions C06_world_history_outputs.
+Theorem C06_world_history_outputs_specifier w ops ops' a o : (a < length (cells w))%nat ->
+  latest_cell a ops (c_ov (cell_at w a)) = latest_cell a ops' (c_ov (cell_at w a)) ->
+  snd (wstep (wrun w ops) (WReadCell a o)) = snd (wstep (wrun w ops') (WReadCell a o)).
+Proof. exact (cell_reads_depend_on_latest w ops ops' a o). Qed.
+Print Assumptions C06_world_history_outputs_specifier.
+(* sharing: at every moment after c = a & b, the members of c are the union of the CURRENT members of a and b (same objects), so an
+   assignment to a member of a is seen through c; likewise SpecifierSet([objects]) *)
+Theorem C06_world_and_shares_members w i j o ops : wf_world w -> (i < length (sets w))%nat -> (j < length (sets w))%nat ->
+  SetModel.merge (h_ov (set_at w i)) (h_ov (set_at w j)) = Some o ->
+  let k := length (sets w) in
+  let w' := wrun w (WAnd i j :: ops) in
+  ms (resolve w' k) = fs_union (ms (resolve w' i)) (ms (resolve w' j)) /\ ov (resolve w' k) = latest_set k ops o.
+Proof. exact (and_shares_members w i j o ops). Qed.
+Print Assumptions C06_world_and_shares_members.
+Theorem C06_world_set_shares_members w addrs p ops : Forall (fun a => (a < length (cells w))%nat) addrs ->
+  let k := length (sets w) in
+  let w' := wrun w (WSet addrs p :: ops) in
+  resolve w' k = SpecifierSet_of (map (member_at w') addrs) (latest_set k ops p).
+Proof. exact (set_shares_members w addrs p ops). Qed.
+Print Assumptions C06_world_set_shares_members.
+Theorem C06_world_sharing_nonvacuous : sharing_check = true.
+Proof. exact sharing_nonvacuous. Qed.
+Print Assumptions C06_world_sharing_nonvacuous.
 
 (* non-vacuity: Specifier(">=1.0") is a wf_member that does not name a pre-release; filter(["1.5a1"]) falls back to the pre-release,
    filter(["1.5a1","2.0"]) returns the final only, and with prereleases=False on the object (D22 repaired) nothing is returned *)
